@@ -115,6 +115,14 @@ fn plan(seeds: &[u16]) -> Plan {
                 b.push("NICK x".into());
                 b.push("USER b 0 * :B".into());
             }
+            // the one that is refused typically tries another nick at once (the winner simply
+            // renames)
+            if s.chance(50) {
+                a.push("NICK xa".into());
+            }
+            if s.chance(50) {
+                b.push("NICK xb".into());
+            }
             per_conn.push((4, a));
             per_conn.push((5, b));
             if s.chance(40) {
@@ -495,13 +503,34 @@ fn stream_key(l: &str, c: usize) -> String {
     let cmd = t.next().unwrap_or("");
     let target = t.next().unwrap_or("");
     let nick = src.split('!').next().unwrap_or("");
-    let own = nick == format!("n{}", c) || nick == format!("n{}b", c) || (c >= 4 && ["x", "y", "z"].contains(&nick));
+    let own = nick == format!("n{}", c) || nick == format!("n{}b", c) || (c >= 4 && ["x", "y", "z", "xa", "xb"].contains(&nick));
     let direct = (cmd == "MODE" && !target.starts_with('#') && !target.starts_with('&')) || (cmd == "JOIN" && own);
     if direct {
         format!("{} (own echo)", src)
     } else {
         src
     }
+}
+
+// Known finding F12: the LUSERS block of the welcome burst is computed under a lock taken after
+// the registration became visible, so it can count a registration that completed in between.
+// `blank_welcome_lusers` removes the numbers of that block (the lines between 001 and 376).
+fn blank_welcome_lusers(o: &Outcome) -> Outcome {
+    let mut o = o.clone();
+    for v in o.replies.values_mut() {
+        let mut in_welcome = false;
+        for l in v.iter_mut() {
+            let code = l.split(' ').nth(1).unwrap_or("").to_string();
+            if code == "001" {
+                in_welcome = true;
+            } else if code == "376" || code == "422" {
+                in_welcome = false;
+            } else if in_welcome && ["251", "252", "253", "254", "255", "265", "266"].contains(&code.as_str()) {
+                *l = format!("{} {} (welcome counters)", l.split(' ').next().unwrap_or(""), code);
+            }
+        }
+    }
+    o
 }
 
 fn canon_outcome(mut o: Outcome) -> Outcome {
@@ -530,8 +559,8 @@ const DIGEST_QUERIES: &[&str] = &[
     "LIST",
     "LUSERS",
     "WHO *",
-    "WHOIS n0,n1,n2,n3,x,y,z,n1b,n0b,n2b,n3b",
-    "ISON n0 n1 n2 n3 x y z n1b n0b n2b n3b",
+    "WHOIS n0,n1,n2,n3,x,y,z,n1b,n0b,n2b,n3b,xa,xb",
+    "ISON n0 n1 n2 n3 x y z n1b n0b n2b n3b xa xb",
     "WHOWAS n1",
     "WHOWAS n2",
 ];
@@ -728,7 +757,19 @@ pub fn check_burst(c: &BurstCase, st: &mut Stats) -> Result<(), Viol> {
                 }
             }
         }
-        if winners.len() + nick_winners > 1 {
+        // the nick may change hands when its owner renames away during the burst
+        let mut releases = 0;
+        let mut seen_rel: BTreeSet<String> = BTreeSet::new();
+        for ls in conc.raw.values() {
+            for l in ls {
+                if let Ok(m) = refparse::parse(l) {
+                    if m.command == "NICK" && m.source.as_deref().map_or(false, |x| x.split('!').next() == Some(n.as_str())) && seen_rel.insert(l.clone()) {
+                        releases += 1;
+                    }
+                }
+            }
+        }
+        if winners.len() + nick_winners > 1 + releases {
             return Err(Viol::new(
                 "C18.one_owner_per_nick",
                 format!("two-winners:{}", p.kind),
@@ -1174,6 +1215,7 @@ pub fn run(ctx: &RunCtx) -> Vec<PartOutcome> {
         explore_with(ctx, "bursts", ctx.tier.pick(2_000, 40_000), 24, burst_strat, check_burst),
         explore_with(ctx, "pipelines", ctx.tier.pick(1_500, 25_000), 300, pipe_strat, check_pipeline),
         explore_with(ctx, "bursts_parallel", ctx.tier.pick(1_000, 20_000), 12, burst_strat, check_burst_mt),
+        explore_with(ctx, "counters_parallel", ctx.tier.pick(48, 800), 8, counters_strat, check_counters_mt),
     ]
 }
 
@@ -1183,6 +1225,7 @@ pub fn replay(part: &str, input: &Value) -> Option<Result<Result<(), Viol>, Stri
         "bursts" => Some(replay_input::<BurstCase>(input, check_burst)),
         "pipelines" => Some(replay_input::<PipeCase>(input, check_pipeline)),
         "bursts_parallel" => Some(replay_input::<BurstCase>(input, check_burst_mt)),
+        "counters_parallel" => Some(replay_input::<CounterCase>(input, check_counters_mt)),
         _ => None,
     }
 }
@@ -1204,6 +1247,100 @@ fn mt_line_barrier(w: &mut MtWorld, c: usize, line: &str, tok: &str) -> bool {
     let t = tok.to_string();
     w.read_until(c, WAIT, &move |ls: &[String]| ls[start.min(ls.len())..].iter().any(|l| (l.contains(" PONG ") && l.ends_with(&format!(":{}", t))) || l.contains(" 451 ")))
         || w.conns[c].eof
+}
+
+// ------------------------------------------------------------------ (e) command counters
+// The per-command counters that STATS m reports are shared by all connections: after N commands
+// of one kind, sent by several connections at the same time, the counter has grown by exactly N
+// (the count after any serial execution of the same commands).
+#[derive(Clone, Debug, Serialize, Deserialize)]
+pub struct CounterCase {
+    pub seeds: Vec<u16>,
+}
+
+fn counters_strat() -> impl Strategy<Value = CounterCase> {
+    prop::collection::vec(any::<u16>(), 6).prop_map(|seeds| CounterCase { seeds })
+}
+
+fn stats_m(w: &mut MtWorld, c: usize, tok: &str) -> Option<BTreeMap<String, u64>> {
+    let start = w.conns[c].lines.len();
+    if !mt_line_barrier(w, c, "STATS m", tok) {
+        return None;
+    }
+    let mut m = BTreeMap::new();
+    for l in &w.conns[c].lines[start..] {
+        let t: Vec<&str> = l.split(' ').collect();
+        if t.len() >= 5 && t[1] == "212" {
+            if let Ok(n) = t[4].trim_start_matches(':').parse::<u64>() {
+                m.insert(t[3].to_string(), n);
+            }
+        }
+    }
+    Some(m)
+}
+
+fn check_counters_mt(c: &CounterCase, st: &mut Stats) -> Result<(), Viol> {
+    let mut s = S::new(&c.seeds);
+    s.raw();
+    let workers = [2usize, 4, 8][s.pick(3)];
+    let mut cfg = CfgSpec::default();
+    cfg.opers.push(OperSpec { name: "op0".into(), password: "operpw0".into(), mask: None });
+    let mut w = MtWorld::new(cfg.to_main_config(), workers);
+    let nconn = 3 + s.pick(4);
+    for i in 0..nconn {
+        let cc = w.connect();
+        if !mt_line_barrier(&mut w, cc, &format!("NICK n{}\r\nUSER u{} 0 * :Real n{}", i, i, i), &format!("reg{}", i)) {
+            st.count("inconclusive_realtime_wait");
+            return Ok(());
+        }
+    }
+    if !mt_line_barrier(&mut w, 0, "OPER op0 operpw0", "oper") {
+        st.count("inconclusive_realtime_wait");
+        return Ok(());
+    }
+    let Some(before) = stats_m(&mut w, 0, "sm1") else {
+        st.count("inconclusive_realtime_wait");
+        return Ok(());
+    };
+    let verbs = [("PING", "PING x"), ("ISON", "ISON n0 n1"), ("USERHOST", "USERHOST n0"), ("VERSION", "VERSION"), ("AWAY", "AWAY")];
+    let (vname, vline) = verbs[s.pick(verbs.len())];
+    let per = 100 + s.pick(500);
+    let mut blob = String::new();
+    for _ in 0..per {
+        blob += vline;
+        blob += "\r\n";
+    }
+    for cc in 1..nconn {
+        w.send_bytes(cc, blob.as_bytes());
+    }
+    for cc in 1..nconn {
+        if !mt_line_barrier(&mut w, cc, "PING sync", &format!("fin{}", cc)) {
+            st.count("inconclusive_realtime_wait");
+            return Ok(());
+        }
+    }
+    let Some(after) = stats_m(&mut w, 0, "sm2") else {
+        st.count("inconclusive_realtime_wait");
+        return Ok(());
+    };
+    let senders = (nconn - 1) as u64;
+    let mut sent: BTreeMap<&str, u64> = BTreeMap::new();
+    *sent.entry(vname).or_insert(0) += per as u64 * senders;
+    // the barriers: `PING sync` + `PING fin<c>` per sender, `STATS m` + `PING sm2` by the reader
+    *sent.entry("PING").or_insert(0) += 2 * senders + 1;
+    *sent.entry("STATS").or_insert(0) += 1;
+    st.nontrivial(format!("{}|w{}|c{}|n{}", vname, workers, nconn, per / 100), || json!({"verb": vname, "workers": workers, "senders": senders, "per_sender": per}));
+    for (k, want) in &sent {
+        let got = after.get(*k).copied().unwrap_or(0).saturating_sub(before.get(*k).copied().unwrap_or(0));
+        if got != *want {
+            return Err(Viol::new(
+                "C18.counters_exact",
+                format!("counter-lost:{}", k),
+                format!("{} connections sent {} x `{}` each at the same time ({} worker threads); STATS m shows {} grown by {} instead of {}", senders, per, vline, workers, k, got, want),
+            ));
+        }
+    }
+    Ok(())
 }
 
 // flush every registered connection's queue: a self-addressed PRIVMSG travels through the
@@ -1465,6 +1602,8 @@ pub fn check_burst_mt(c: &BurstCase, st: &mut Stats) -> Result<(), Viol> {
     let capped = perms.len() >= CAP;
     let mut tried = 0;
     let mut matched = false;
+    let mut matched_but_welcome_counters = false;
+    let conc_blank = blank_welcome_lusers(&conc.outcome);
     let mut first_diff: Vec<String> = vec![];
     for perm in &perms {
         tried += 1;
@@ -1472,6 +1611,9 @@ pub fn check_burst_mt(c: &BurstCase, st: &mut Stats) -> Result<(), Viol> {
         if seq.outcome == conc.outcome {
             matched = true;
             break;
+        }
+        if blank_welcome_lusers(&seq.outcome) == conc_blank {
+            matched_but_welcome_counters = true;
         }
         if std::env::var("VERIF_DEBUG_C18").is_ok() {
             eprintln!("order {:?}: replies_eq={} relays_eq={} digest_eq={} eof_eq={}", perm.iter().map(|x| x.0).collect::<Vec<_>>(), seq.outcome.replies == conc.outcome.replies, seq.outcome.relays == conc.outcome.relays, seq.outcome.digest == conc.outcome.digest, seq.outcome.eof == conc.outcome.eof);
@@ -1523,6 +1665,15 @@ pub fn check_burst_mt(c: &BurstCase, st: &mut Stats) -> Result<(), Viol> {
         let mut t = conc.log.clone();
         t.push(format!("-- no sequential order of the {} burst commands ({} tried, replayed on the SIM engine) reproduces the parallel outcome; differences to the first order:", p.burst.len(), tried));
         t.extend(first_diff.into_iter().take(14));
+        if matched_but_welcome_counters {
+            t.push("-- apart from the numbers in the LUSERS block of a welcome burst the outcome equals a sequential execution (known finding F12)".to_string());
+            return Err(Viol::new(
+                "C18.linearizable",
+                "not-linearizable:welcome-lusers-snapshot".to_string(),
+                format!("parallel burst `{}` ({}): a welcome burst reports user counts that no sequential order gives", p.burst.iter().map(|(c, l)| format!("c{}:{}", c, l)).collect::<Vec<_>>().join(" | "), p.kind),
+            )
+            .with_transcript(t));
+        }
         return Err(Viol::new(
             "C18.linearizable",
             format!("not-linearizable:mt:{}", p.kind),
